@@ -82,7 +82,7 @@ class LoopSpec:
 class Spec:
     def __init__(self, qual, params, returns="none", requires=(), ensures=(), aux=(), raises=None,
                  modifies=(), loops=None, inline=False, locals=None, pure=False, hints=(),
-                 trusted=False, fresh=(), cases=None):
+                 trusted=False, fresh=(), cases=None, at=None, ghost=None, ghost_calls=None, reveal=()):
         self.qual = qual
         self.params = params            # ordered dict name -> kind text
         self.returns = returns
@@ -96,6 +96,10 @@ class Spec:
         self.hints = list(hints)        # ghost `have` steps before the ensures (each proved then assumed)
         self.trusted = trusted          # contract assumed, body not verified (library / out of subset)
         self.fresh = list(fresh)        # classes of which only objects allocated by the call are written
+        self.reveal = set(reveal)       # opaque spec functions whose definition this proof needs
+        self.at = at or {}              # ghost `have` steps after the statement whose first source line is the key
+        self.ghost = ghost or {}        # ghost parameters (name -> kind text)
+        self.ghost_calls = ghost_calls or {}   # callee short name -> {ghost param -> expression in the caller}
         self.cases = cases
 
 
@@ -130,6 +134,7 @@ class Ctx:
         self.reg = registry
         self.prefix = prefix
         self.hyps = []
+        self.hyp_defs = {}      # index in hyps -> set of symbol names the hypothesis *defines* (relevance filter)
         self.obls = []
         self.dropped = []
         self.inlined = set()
@@ -140,10 +145,18 @@ class Ctx:
         self.top_spec = None
         self.depth = 0
 
-    def assume(self, st, fact):
+    def assume(self, st, fact, defines=None):
         if z3.is_true(fact):
             return
-        self.hyps.append(implies(st.pc, fact))
+        self.add_hyp(implies(st.pc, fact), defines)
+
+    def add_hyp(self, fact, defines=None):
+        """`defines`: names of fresh symbols this hypothesis only serves to define (a named quotient, a floor,
+        the result of a contracted call).  Such a hypothesis is relevant to an obligation only if one of those
+        symbols is; see verify.package()."""
+        if defines:
+            self.hyp_defs[len(self.hyps)] = set(defines)
+        self.hyps.append(fact)
 
     def oblige(self, st, name, claim, kind, line=None, carry=True):
         if z3.is_true(claim):
@@ -151,6 +164,12 @@ class Ctx:
         if kind in ("safety", "call-pre") and z3.is_true(z3.simplify(claim)):
             return
         if z3.is_false(st.pc):
+            return
+        cases = getattr(self, "case_conds", None)
+        if cases and kind in ("safety", "call-pre", "raise"):
+            for cn, cc in cases:
+                self.obls.append(Obligation("%s/%s[%s]" % (self.prefix, name, cn), len(self.hyps), st.pc,
+                                            implies(cc, claim), kind, line, carry))
             return
         o = Obligation("%s/%s" % (self.prefix, name), len(self.hyps), st.pc, claim, kind, line, carry)
         self.obls.append(o)
@@ -348,7 +367,7 @@ class Executor:
                     return vint(floor_div(to_int(a), z3.IntVal(2)))
             self.unsupported(node, "operator")
         return arith(self.OPS[type(op)], a, b, lambda what, cond: self.check(st, what, cond, node),
-                     None if self.spec_mode else (lambda fact: self.ctx.hyps.append(fact)))
+                     None if self.spec_mode else (lambda fact, q=None: self.ctx.add_hyp(fact, [q] if q else None)))
 
     def e_BinOp(self, node, st):
         a = self.eval(node.left, st)
@@ -563,6 +582,24 @@ class Executor:
     def quantify(self, gen, st, universal):
         if not isinstance(gen, ast.GeneratorExp):
             raise OutOfSubset("all()/any() need a generator expression")
+        # a single generator over a small constant range is expanded (keeps the formula quantifier-free)
+        if len(gen.generators) == 1 and not gen.generators[0].ifs:
+            comp = gen.generators[0]
+            it = comp.iter
+            if isinstance(it, ast.Call) and isinstance(it.func, ast.Name) and it.func.id == "range" and isinstance(comp.target, ast.Name):
+                args = [z3.simplify(to_int(self.eval(a, st))) for a in it.args]
+                lo, hi = (z3.IntVal(0), args[0]) if len(args) == 1 else (args[0], args[1])
+                if z3.is_int_value(lo) and z3.is_int_value(hi) and hi.as_long() - lo.as_long() <= 16:
+                    saved = dict(self.bound)
+                    parts = []
+                    try:
+                        for k in range(lo.as_long(), hi.as_long()):
+                            self.bound = dict(saved)
+                            self.bound[comp.target.id] = vint(k)
+                            parts.append(truth(self.eval(gen.elt, st)))
+                    finally:
+                        self.bound = saved
+                    return and_(*parts) if universal else or_(*parts)
         saved = dict(self.bound)
         vars_, guards = [], []
         try:
@@ -730,8 +767,11 @@ class Executor:
         rk = self.kind_of(spec.returns)
         res = fresh(rk, "ret_" + fi.name)
         sub.result = res
+        defs = None
+        if not spec.modifies and not spec.fresh and res.terms:
+            defs = [str(t) for t in res.terms]
         for e in spec.ensures:
-            self.ctx.assume(st, sub.eval_spec(e[1] if isinstance(e, tuple) else e, post))
+            self.ctx.assume(st, sub.eval_spec(e[1] if isinstance(e, tuple) else e, post), defs)
         st.heap = post.heap
         return res
 
@@ -769,12 +809,36 @@ class Executor:
                 cur = None
                 break
             o = self.exec_stmt(s, cur)
+            if self.spec is not None and self.spec.at and self is self.ctx.top_exec and o.normal is not None:
+                self.site_hints(s, o.normal)
             out.brk = merge(out.brk, o.brk)
             out.cont = merge(out.cont, o.cont)
             out.ret = merge(out.ret, o.ret)
             cur = o.normal
         out.normal = cur
         return out
+
+    def site_hints(self, node, st):
+        try:
+            key = ast.unparse(node).splitlines()[0].strip()
+        except Exception:
+            return
+        seen = self.__dict__.setdefault("_at_seen", {})
+        seen[key] = seen.get(key, 0) + 1
+        hints = self.spec.at.get("%s#%d" % (key, seen[key]))
+        if hints is None and seen[key] == 1:
+            hints = self.spec.at.get(key)
+        if not hints:
+            return
+        self.__dict__.setdefault("_at_used", set()).add(key)
+        for h in hints:
+            name, text = (h[0], h[1]) if isinstance(h, tuple) else ("#", h)
+            if isinstance(text, str) and text.startswith("use "):
+                self.ctx.assume(st, self.eval_spec(text[4:], st))
+                continue
+            cl = self.eval_spec(text, st)
+            self.ctx.oblige(st, "have:%s" % name, cl, "hint", getattr(node, "lineno", None))
+            self.ctx.assume(st, cl)
 
     def exec_stmt(self, node, st):
         m = getattr(self, "s_" + type(node).__name__, None)
